@@ -20,7 +20,7 @@
    * [fexec]/[fexec_sound]: an executable interpreter for [FExec] (so both sides can be run inside Coq).
 
    PREMISES of [for_sim]
-   * on the LIBRARY parameter: [arrayLength_contract], [arrayGet_contract] (proved for Model/LibCore.v libcore below), and
+   * on the LIBRARY (the lib argument of the interpreter model): [arrayLength_contract], [arrayGet_contract] (proved for Model/LibCore.v libcore below), and
      the two premises of C01 (fuel monotone, counter-blind evaluation);
    * on names: the three temporaries are pairwise distinct and none is null/true/false ([names_okb]);
    * on the body: C01's side conditions [wf true], [guard] (no `continue` inside a `while`: F7);
@@ -32,8 +32,8 @@
        - element i exists when iteration i starts (the body has not shrunk the array below the index).
 
    WHAT IS MISSING (named)
-   * `for` is a separate layer on top of [sstmt]: its body is an [sstmt], so for-in-for and a for inside if/while are not
-     covered (sequencing with other statements follows from the continuation form of [post]);
+   * in THIS file `for` is one loop over an [sstmt] body; Proofs/C01forN.v extends it to nested loops (for-in-for) and
+     sequences around them.  A `for` inside an if branch or inside a while body is covered by neither;
    * the loop expression evaluating to a NON-array value (arrayLength then fails its argument check, returns 0, logs in debug
      mode, and the loop is skipped) has no rule in [FExec];
    * a body that shrinks the array (arrayGet out of range: null plus a debug log) has no rule;
